@@ -38,7 +38,11 @@ def universe(product, comps, rnd):
     for k in (1, 2, 3):
         for t in itertools.product(comps, repeat=k):
             if k == 1 and t[0] < 10:
-                continue      # a one-character version is not a release spelling any product banner regex accepts
+                # a one-character version is not a release spelling any product banner regex accepts - but it is a version other
+                # versions can be compared *with* (a table entry "appeared in 7"): used as an argument only
+                if t[0] in (1, 2, 9):
+                    vs.append({'c': list(t), 'p': ['none', 0], 'arg_only': True})
+                continue
             vs.append({'c': list(t), 'p': ['none', 0]})
     for k in (2,):
         for t in itertools.product(comps, repeat=k):
@@ -78,18 +82,23 @@ def run(tier):
         common.require(len(rows) == len(vs), 'TLC emitted %d rows for %d versions' % (len(rows), len(vs)))
         texts = [render(v) for v in vs]
         softs = []
-        for t in texts:
+        for t, v in zip(texts, vs):
+            if v.get('arg_only'):
+                softs.append(None)
+                continue
             b = Banner.parse(fmt % t)
             s = Software.parse(b) if b is not None else None
             common.require(s is not None, 'banner %r not recognised as %s' % (fmt % t, product))
             softs.append(s)
         code = []
         for i, s in enumerate(softs):
-            code.append([_sign(s.compare_version(texts[j])) for j in range(len(vs))])
+            code.append(None if s is None else [_sign(s.compare_version(texts[j])) for j in range(len(vs))])
         n = len(vs)
         for i in range(n):
             exp = rows[i + 1]
             got = code[i]
+            if got is None:
+                continue
             for j in range(n):
                 e = exp[j]
                 if e == 2:
@@ -104,7 +113,7 @@ def run(tier):
                 if e != 0:
                     ck.nontrivial((product, min(i, j), max(i, j)))
                 # antisymmetry of the code's own answers
-                if got[j] != -code[j][i] and exp[j] != 2:
+                if code[j] is not None and got[j] != -code[j][i] and exp[j] != 2:
                     ck.violation('compare_version product=%s not-antisymmetric' % product,
                                  '%s: cmp(%s,%s)=%d but cmp(%s,%s)=%d' % (product, texts[i], texts[j], got[j], texts[j], texts[i], code[j][i]),
                                  {'product': product, 'a': texts[i], 'b': texts[j]})
@@ -112,7 +121,7 @@ def run(tier):
             # availability: between_versions(s, '') <=> Compare(v, s) >= 0
         for _ in range(20000 if tier == 'quick' else 200000):
             i, j, k = rnd.randrange(n), rnd.randrange(n), rnd.randrange(n)
-            if 2 in (rows[i + 1][j], rows[j + 1][k], rows[i + 1][k]):
+            if 2 in (rows[i + 1][j], rows[j + 1][k], rows[i + 1][k]) or code[i] is None or code[j] is None:
                 continue
             ck.evaluated()
             if code[i][j] <= 0 and code[j][k] <= 0 and code[i][k] > 0:
